@@ -159,6 +159,17 @@ def lattice_xy(chk, rng, count):
         (float(la[i, j]), float(lo[i, j])) == tuple(float(v) for v in xy_to_latlon(float(xs[i, j]), float(ys[i, j]), 47.2, 11.3)) for i in range(3) for j in range(5))
     if not ok:
         chk.violation("xy_to_latlon of arrays differs from the scalar results", {"kind": "geo_arrays"}, klass={"check": "arrays"})
+    # the same TowerConfig objects in a second configuration with another reference origin, and re-localised in place
+    from bldfm.config_parser import BLDFMConfig, DomainConfig, MetConfig, TowerConfig
+    tw = [TowerConfig(name="a", lat=47.2031, lon=11.3052, z_m=3.0), TowerConfig(name="b", lat=47.1975, lon=11.2969, z_m=5.0)]
+    for ref in ((47.2, 11.3), (47.19, 11.31), (47.2, 11.31)):
+        cfg2 = BLDFMConfig(domain=DomainConfig(nx=8, ny=8, xmax=100.0, ymax=100.0, nz=4, ref_lat=ref[0], ref_lon=ref[1]), towers=tw, met=MetConfig(ustar=0.3))
+        for t_ in cfg2.towers:
+            want = latlon_to_xy(t_.lat, t_.lon, ref[0], ref[1])
+            n += 1
+            if (t_.x, t_.y) != want:
+                chk.violation("tower %s re-used in a configuration with reference origin %s keeps local coordinates (%.3f, %.3f); its position gives (%.3f, %.3f)" % (t_.name, ref, t_.x, t_.y, want[0], want[1]),
+                              {"kind": "geo_tower_reuse", "ref": ref}, klass={"check": "tower_reuse"})
     o = latlon_to_xy(47.2, 11.3, 47.2, 11.3)
     if o != (0.0, 0.0):
         chk.violation("the reference origin maps to %r" % (o,), {"kind": "geo_origin"}, klass={"check": "origin"})
